@@ -788,8 +788,8 @@ def expected_scratch_count(spec: dict, d: Driver):
 def run(tier: str) -> int:
     t_start = time.time()
     rep = Report("C10", tier, level="proof")
-    st = check_proofs(["PyTealV.Proofs.C10"])
-    rep.coverage.update(proof_coverage(st, "cd lean && lake build PyTealV.Proofs.C10", TRUSTED))
+    st = check_proofs(["PyTealV.Proofs.C10", "PyTealV.Proofs.FrameImm"])
+    rep.coverage.update(proof_coverage(st, "cd lean && lake build PyTealV.Proofs.C10 PyTealV.Proofs.FrameImm", TRUSTED))
     rep.assumptions += [
         "slot objects are identified by Python object identity; the model's `obj` field stands for it",
         "requested slot ids are < 256 (enforced by ScratchSlot.__init__, re-checked on the real class each run)",
@@ -960,6 +960,6 @@ def replay(path: str) -> int:
         bad = check_preconditions()
         print("preconditions failing now:", bad)
         return 1 if bad else 0
-    st = check_proofs(["PyTealV.Proofs.C10"])
+    st = check_proofs(["PyTealV.Proofs.C10", "PyTealV.Proofs.FrameImm"])
     print("proof status:", "ok" if st.ok else st.problems, st.log[-1500:] if not st.ok else "")
     return 0 if st.ok else 1
